@@ -185,7 +185,15 @@ def r3_terminator(ctx):
 
 def r4_one_predicate(ctx):
     es = ctx.prog.func(f'{EXP}.export_string')
-    blocks = [n for n in docstring_free(es.body) if isinstance(n, ast.If) and src(n.test) == 'options.from_measure']
+    # the statements executed when from_measure is given: the body of `if options.from_measure:` or the else-branch of its negation
+    blocks = []
+    for n in docstring_free(es.body):
+        if isinstance(n, ast.If):
+            fm_ = G._formula(n.test)
+            if G.atoms_of(fm_) == ['options.from_measure']:
+                pos = G.evaluate(fm_, {'options.from_measure': True})
+                blocks.append(ast.copy_location(ast.If(test=n.test, body=(n.body if pos else n.orelse), orelse=[]), n))
+    blocks = [b_ for b_ in blocks if b_.body]
     ctx.expect_count('R4', 'excerpt preamble block', len(blocks), 1)
     blk = blocks[0]
     sites = [c for s in blk.body for c in ast.walk(s) if isinstance(c, ast.Call) and src(c.func) in ('self.export_token', 'self.append_row')]
